@@ -30,11 +30,13 @@ fn limbs(u: &U256) -> String {
 pub fn run(t: &[&str]) -> String {
     guarded(|| match t[0] {
         // ---------------- formulas ----------------
+        #[cfg(feature = "fnapi")]
         "compute_swap" => {
             let (r, s, c) =
                 formulas::compute_swap(uint128(t[1]), uint128(t[2]), uint128(t[3]), dec256(t[4]));
             format!("ok {} {} {}", r, s, c)
         }
+        #[cfg(feature = "fnapi")]
         "compute_offer_amount" => {
             let (o, s, c) = formulas::compute_offer_amount(
                 uint128(t[1]),
@@ -44,6 +46,7 @@ pub fn run(t: &[&str]) -> String {
             );
             format!("ok {} {} {}", o, s, c)
         }
+        #[cfg(feature = "fnapi")]
         "lp_share" => {
             // wl min0 min1 S d0 d1 r0 r1
             let wl = t[1] == "1";
@@ -222,6 +225,11 @@ pub fn run(t: &[&str]) -> String {
         "u_unjson" => std_result(from_slice::<Uint256>(&unhex(t[1])).map(ok1)),
         "d_unjson" => std_result(from_slice::<Decimal256>(&unhex(t[1])).map(|d| ok1(d.0))),
         // ---------------- guards ----------------
+        #[cfg(not(feature = "fnapi"))]
+        "max_spread" | "slippage" | "compute_swap" | "compute_offer_amount" | "lp_share" | "sent_native" | "assert_ops" => {
+            panic!("harness: built without the function-level API (its signatures no longer match)")
+        }
+        #[cfg(feature = "fnapi")]
         "max_spread" => {
             // bp ms offer ret spread od rd
             let offer = Asset {
@@ -249,6 +257,7 @@ pub fn run(t: &[&str]) -> String {
                 .map(|_| "ok".to_string()),
             )
         }
+        #[cfg(feature = "fnapi")]
         "slippage" => {
             // t d0 d1 p0 p1
             let pools = [
@@ -274,6 +283,7 @@ pub fn run(t: &[&str]) -> String {
                 .map(|_| "ok".to_string()),
             )
         }
+        #[cfg(feature = "fnapi")]
         "sent_native" => {
             // kind idhex amount nfunds (denomhex amount)*
             let asset = Asset {
@@ -298,6 +308,7 @@ pub fn run(t: &[&str]) -> String {
                     .map(|_| "ok".to_string()),
             )
         }
+        #[cfg(feature = "fnapi")]
         "assert_ops" => {
             // n (kind idhex kind idhex)*
             let n: usize = t[1].parse().unwrap();
